@@ -51,12 +51,9 @@ pub fn run(args: &Args, rep: &mut Report) {
     let thorough = args.tier == "thorough";
     let mut r = Rng::new(crate::rng::mix(args.seed.wrapping_mul(1_000_003) + args.shard as u64, 0x5161));
     let budget = ((if thorough { 600_000.0 } else { 30_000.0 }) * args.scale) as u64 / args.nshards as u64;
-    let secp = Secp256k1::new();
-    let mut key_words: HashMap<[Word; 5], [u8; 33]> = HashMap::new();
-    let mut sig_words: HashMap<[Word; 9], ([u8; 64], i32)> = HashMap::new();
+    let mut st = State { secp: Secp256k1::new(), key_words: HashMap::new(), sig_words: HashMap::new() };
     for _ in 0..budget.max(1) {
         let sk = gen_sk(&mut r);
-        let pk = PublicKey::from_secret_key(&secp, &sk);
         let np = r.below(5);
         let mut contract = Contract { predicates: (0..np).map(|_| crate::formats::gen_predicate(&mut r, false)).collect(), salt: if r.chance(0.2) { [0; 32] } else { r.bytes32() } };
         if np >= 1 && r.chance(0.25) {
@@ -70,6 +67,28 @@ pub fn run(args: &Args, rep: &mut Report) {
             contract.predicates.insert(at, crate::formats::gen_predicate(&mut r, true));
             rep.count("contracts_with_limit_size_predicate");
         }
+        one_case(&mut r, rep, &mut st, &sk, &contract);
+    }
+    let (key_words, mut r) = (st.key_words, r);
+    raw_signatures(&mut r, rep, budget);
+    rep.add("distinct_keys_bucketed", key_words.len() as u64);
+    rep.sample(2, || json!({"what": "key + contract", "note": "sign -> recover -> verify, predicate permutation, two content tamperings, three malformed signatures, word encodings, VM RecoverSecp256k1 on the encoded words; plus raw 65-byte signatures"}));
+}
+
+struct State {
+    secp: Secp256k1<secp256k1::All>,
+    key_words: HashMap<[Word; 5], [u8; 33]>,
+    sig_words: HashMap<[Word; 9], ([u8; 64], i32)>,
+}
+
+/// Everything that is checked for one (secret key, contract) pair; the random choices (permutation, which field
+/// is tampered with, which malformed signature) come from `r`.
+fn one_case(r: &mut Rng, rep: &mut Report, st: &mut State, sk: &SecretKey, contract: &Contract) {
+    let State { secp, key_words, sig_words } = st;
+    let sk = *sk;
+    let contract = contract.clone();
+    let pk = PublicKey::from_secret_key(secp, &sk);
+    {
         let np = contract.predicates.len();
         let case = |what: &str| json!({"engine": "sign", "what": what, "secret_key": hex::encode(sk.secret_bytes()), "contract": contract});
         crate::wal(&|| case("sign"));
@@ -78,7 +97,7 @@ pub fn run(args: &Args, rep: &mut Report) {
             Ok(s) => s,
             Err(p) => {
                 rep.violation("C19", "panic", format!("sign panicked: {p}"), case("sign"));
-                continue;
+                return;
             }
         };
         // sign -> recover -> verify
@@ -126,9 +145,9 @@ pub fn run(args: &Args, rep: &mut Report) {
                 0 => t.contract.salt[r.below(32)] ^= 1 << r.below(8),
                 1 if !t.contract.predicates.is_empty() => {
                     let i = r.below(t.contract.predicates.len());
-                    t.contract.predicates[i] = crate::formats::perturb_predicate(&mut r, &t.contract.predicates[i]);
+                    t.contract.predicates[i] = crate::formats::perturb_predicate(r, &t.contract.predicates[i]);
                 }
-                2 => t.contract.predicates.push(crate::formats::gen_predicate(&mut r, false)),
+                2 => t.contract.predicates.push(crate::formats::gen_predicate(r, false)),
                 _ => {
                     if t.contract.predicates.pop().is_none() {
                         t.contract.salt[0] ^= 0x80;
@@ -225,7 +244,10 @@ pub fn run(args: &Args, rep: &mut Report) {
         rep.nontrivial(crate::rng::fnv(&ser));
         let _: &SignedContract = &signed;
     }
-    // raw 65-byte strings
+}
+
+/// Raw 65-byte strings as signatures: an error, never a panic.
+fn raw_signatures(r: &mut Rng, rep: &mut Report, budget: u64) {
     for _ in 0..(budget * 4).max(1) {
         let mut s = [0u8; 64];
         s.copy_from_slice(&r.bytes(64));
@@ -237,6 +259,37 @@ pub fn run(args: &Args, rep: &mut Report) {
             rep.violation("C19", "panic", format!("raw signature {sig} caused a panic: {p}"), json!({"engine": "sign", "what": "raw", "signature": sig.to_string()}));
         }
     }
-    rep.add("distinct_keys_bucketed", key_words.len() as u64);
-    rep.sample(2, || json!({"what": "key + contract", "note": "sign -> recover -> verify, predicate permutation, two content tamperings, three malformed signatures, word encodings, VM RecoverSecp256k1 on the encoded words; plus raw 65-byte signatures"}));
+}
+
+/// Replay a recorded case: the same key and contract through every check again, with up to 4000 different streams of the
+/// random choices (which field is tampered with, which malformed signature) so that the recorded one is hit again.
+pub fn replay(case: &serde_json::Value, rep: &mut Report) {
+    crate::vmcase::install_panic_hook();
+    if case.get("what").and_then(|w| w.as_str()) == Some("raw") {
+        let text = case.get("signature").and_then(|s| s.as_str()).unwrap_or("");
+        match text.parse::<Signature>() {
+            Ok(sig) => {
+                let signed = SignedContract { contract: Contract::default(), signature: sig.clone() };
+                if let Err(p) = catch(|| (sc::recover(&signed).is_ok(), sc::verify(&signed).is_ok())) {
+                    rep.violation("C19", "panic", format!("raw signature {sig} caused a panic: {p}"), case.clone());
+                }
+            }
+            Err(_) => rep.inconclusive.push("cannot read the recorded signature".into()),
+        }
+        return;
+    }
+    let sk = case.get("secret_key").and_then(|s| s.as_str()).and_then(|s| hex::decode(s).ok()).and_then(|b| SecretKey::from_slice(&b).ok());
+    let contract: Option<Contract> = case.get("contract").cloned().and_then(|c| serde_json::from_value(c).ok());
+    let (Some(sk), Some(contract)) = (sk, contract) else {
+        rep.inconclusive.push("cannot read secret key / contract of the recorded case".into());
+        return;
+    };
+    let mut st = State { secp: Secp256k1::new(), key_words: HashMap::new(), sig_words: HashMap::new() };
+    for i in 0..4000 {
+        let mut r = Rng::new(0x5161 + i);
+        one_case(&mut r, rep, &mut st, &sk, &contract);
+        if !rep.violations.is_empty() {
+            break;
+        }
+    }
 }
